@@ -38,6 +38,12 @@ Calls(S) ==
   \cup {<<"rconcat", a>> : a \in Operands}
   \cup {<<"offset", <<k>>>> : k \in {-1, 0, 1, 2}}
   \cup {<<"strip_arom", <<>>>>, <<"strip_order", <<>>>>, <<"views", <<>>>>, <<"copy", <<>>>>}
+  \cup {<<"independent", <<"index", x>>>> : x \in MaskIdx(S.n) \cup AllIdx
+                                                   \cup {<<"slice", <<<<>>, <<>>, <<-1>>>>>>, <<"slice", <<<<0>>, <<>>, <<>>>>>>,
+                                                         <<"arr", [i \in 1..S.n |-> i - 1]>>, <<"arr", <<0, 0>>>>}}
+  \cup {<<"independent", <<"merge", a>>>> : a \in Operands}
+  \cup {<<"independent", <<"concat", a>>>> : a \in Operands}
+  \cup {<<"independent", <<"copy", <<>>>>>>}
   \cup {<<"get_bonds", <<i>>>> : i \in IdxRange(S.n)}
   \cup {<<"contains", <<i, j>>>> : i \in 0..(S.n-1), j \in 0..(S.n-1)}
   \cup {<<"index", <<x>>>> : x \in IntIdx(IdxRange(S.n))
